@@ -51,6 +51,7 @@ struct Run
   int loc_pump = 0, loc_runtime = 0, loc_svcs = 0;
   std::vector<int> inj_present;  // indexed by port
   int n_clients = 0;
+  std::vector<std::string> client_names;
   std::vector<Unbind> unbinds;
   int parent_mode = 0;
   int probes = 0;
@@ -522,7 +523,15 @@ static void execute_run(int out_fd)
       if (pd.sem == 3) continue;
       if (pd.sem == 2)
       {
-        for (int k = 0; k < R.n_clients; ++k) g_outer_obj[pi].push_back(pd.outer(g_shell, "client" + std::to_string(k)));
+        for (int k = 0; k < R.n_clients; ++k) g_outer_obj[pi].push_back(pd.outer(g_shell, R.client_names[static_cast<size_t>(k)]));
+        {
+          // every registered client got its own port object
+          bool distinct = true;
+          for (size_t a = 0; a < g_outer_obj[pi].size(); ++a)
+            for (size_t b = a + 1; b < g_outer_obj[pi].size(); ++b)
+              if (g_outer_obj[pi][a] == g_outer_obj[pi][b]) distinct = false;
+          rec(std::string("client_ports distinct=") + (distinct ? "1" : "0") + " n=" + std::to_string(g_outer_obj[pi].size()));
+        }
         std::string ids;
         for (auto& s : g_model.shell.client_ids(g_shell, static_cast<int>(pi))) ids += (ids.empty() ? "" : ",") + s;
         rec("client_ids port=" + std::to_string(pi) + " ids=" + (ids.empty() ? "-" : ids));
@@ -592,7 +601,7 @@ static void execute_run(int out_fd)
       {
         try
         {
-          void* again = pd.outer(g_shell, "client0");
+          void* again = pd.outer(g_shell, R.client_names[0]);
           rec(std::string("probe_fetch_existing result=ok same=") + (again == g_outer_obj[static_cast<size_t>(g_model.mc_port)][0] ? "1" : "0"));
         }
         catch (const std::exception& e)
@@ -665,7 +674,13 @@ static bool parse_run(const std::vector<std::string>& lines, Run& R)
       is >> port >> present;
       if (port >= 0 && static_cast<size_t>(port) < R.inj_present.size()) R.inj_present[static_cast<size_t>(port)] = present;
     }
-    else if (kw == "CLIENTS") is >> R.n_clients;
+    else if (kw == "CLIENTS")
+    {
+      is >> R.n_clients;
+      std::string nm;
+      while (is >> nm) R.client_names.push_back(nm);
+      for (int k = static_cast<int>(R.client_names.size()); k < R.n_clients; ++k) R.client_names.push_back("client" + std::to_string(k));
+    }
     else if (kw == "UNBIND")
     {
       Unbind u;
